@@ -241,7 +241,7 @@ func (c *Container) Peek(n int) []byte {
 	}
 
 	// Check if the first slice holds enough data.
-	if len(c.compartments[c.offset]) >= n {
+	if c.offset < len(c.compartments) && len(c.compartments[c.offset]) >= n {
 		return c.compartments[c.offset][:n]
 	}
 
